@@ -88,7 +88,19 @@ func driveSets(plan []M, out *Out, _ []string) {
 				b, bd = buildSet(bs)
 			}
 			e["a"], e["b"] = ad, bd
-			e["a0"], e["b0"] = obsSet(a, nu), obsSet(b, nu)
+			if boolean(p, "blind") {
+				// the operands are NOT looked at before the call (an observation enumerates the concurrent set and thereby
+				// re-organises its storage: the call would never meet the layout the history built); what they hold is read
+				// off twins built by the same deterministic history
+				ta, _ := buildSet(as)
+				tb := ta
+				if !same {
+					tb, _ = buildSet(bs)
+				}
+				e["a0"], e["b0"] = obsSet(ta, nu), obsSet(tb, nu)
+			} else {
+				e["a0"], e["b0"] = obsSet(a, nu), obsSet(b, nu)
+			}
 			switch op {
 			case "Union":
 				r = a.Union(b)
